@@ -841,6 +841,11 @@ Proof.
   apply opt_str_eqb_eq in H. now rewrite H.
 Qed.
 
+Lemma wait_check_sound before b : wait_check before b = true -> wait_spec before b.
+Proof.
+  unfold wait_check, wait_spec. intros H Hd. rewrite Hd in H. exact H.
+Qed.
+
 (* what an accepted history means, position by position *)
 Lemma check_from_at pre0 pre e o post :
   check_from pre0 (pre ++ (e, o) :: post) = true -> check_one (pre0 ++ map fst pre) e o = true.
@@ -863,12 +868,14 @@ Lemma checker_accepts_means pre e o post :
       | None => True
       end
   | Restart, Restored l => restored_spec (map fst pre) l
+  | Wait, Waited b => wait_spec (map fst pre) b
   | _, _ => True
   end.
 Proof.
   intro H. apply (check_from_at [] pre e o post) in H. cbn [app] in H.
   destruct e as [tag ob x| | |now faults|], o as [l|b|tr reads|l]; try exact I.
   - cbn [check_one] in H. now apply sendall_check_sound.
+  - cbn [check_one] in H. now apply wait_check_sound.
   - cbn [check_one] in H. destruct (written_of tr) as [w|]; [|exact I].
     apply andb_true_iff in H as [Hc Hs]. split; [now apply crash_check_sound|].
     intro Hcomp. rewrite Hcomp in Hs. destruct (last reads None) as [cfg|]; [|discriminate].
@@ -913,3 +920,63 @@ Lemma example_answer :
   snd (step (fst (run (init_sys [] [(Main, [])]) example_history)) SendAll)
   = Published [("STATUS", 22); ("ALIVE", 31); ("TRIGGER", 41)]%string.
 Proof. vm_compute. reflexivity. Qed.
+
+(* ---- a change of a persistent topic makes a save due ---- *)
+Lemma due_scan_snoc r : forall seen due e,
+  due_scan seen due (r ++ [e]) =
+  match e with
+  | SaveTick _ _ => false
+  | Update t _ x => due_scan seen due r
+                    || (persistent_topic t && negb (opt_str_eqb (last_text t (seen ++ r)) (Some x)))
+  | _ => due_scan seen due r
+  end.
+Proof.
+  induction r as [|a r IH]; intros seen due e; cbn [app due_scan].
+  - rewrite app_nil_r. destruct e; reflexivity.
+  - rewrite IH. rewrite <- app_assoc. reflexivity.
+Qed.
+
+Lemma persistent_not_nosave t : persistent_topic t = true -> nosave t = false /\ String.eqb t "NEWDASTARD" = false.
+Proof.
+  intro H. apply andb_true_iff in H as [Hst Hvol]. apply negb_true_iff in Hvol.
+  rewrite <- nosave_is_volatile in Hvol. split; [exact Hvol|].
+  apply andb_true_iff in Hst as [Hev _]. unfold event_tags, mem_str in Hev. cbn [existsb] in Hev.
+  destruct (String.eqb t "NEWDASTARD"); [discriminate | reflexivity].
+Qed.
+
+Lemma due_armed cfg d h :
+  Forall wf_event h -> save_due h = true -> armed (fst (run (init_sys cfg d) h)) = true.
+Proof.
+  unfold save_due. induction h as [|e h IH] using rev_ind; intros Hwf Hdue; [discriminate|].
+  apply Forall_app in Hwf as [Hh He]. inversion He as [|? ? Hwe _]; subst.
+  pose proof (inv_run cfg d h Hh) as [Hnd Htx Hk1 Hk2].
+  rewrite run_snoc. rewrite due_scan_snoc in Hdue. cbn [app] in Hdue.
+  set (y := fst (run (init_sys cfg d) h)) in *.
+  destruct e as [tag obj text | | | now faults | ].
+  - cbn [step].
+    destruct (String.eqb tag "NEWDASTARD") eqn:End.
+    + cbn [fst]. apply orb_true_iff in Hdue as [Hd | Hp]; [now apply IH|].
+      apply andb_true_iff in Hp as [Hp _]. apply persistent_not_nosave in Hp as [_ Hp]. congruence.
+    + destruct (text_of y tag =? text) eqn:Esame; cbn [negb fst armed].
+      * apply Z.eqb_eq in Esame. cbn [wf_event] in Hwe.
+        pose proof (text_of_some y tag text Esame Hwe) as Hl. rewrite Htx, End in Hl.
+        apply orb_true_iff in Hdue as [Hd | Hp]; [now apply IH|].
+        apply andb_true_iff in Hp as [_ Hp]. rewrite Hl in Hp. cbn [opt_str_eqb] in Hp.
+        rewrite Z.eqb_refl in Hp. discriminate.
+      * apply orb_true_iff in Hdue as [Hd | Hp].
+        -- rewrite (IH Hh Hd). reflexivity.
+        -- apply andb_true_iff in Hp as [Hp _]. apply persistent_not_nosave in Hp as [Hp _].
+           rewrite Hp. apply orb_true_r.
+  - cbn [step fst]. now apply IH.
+  - cbn [step fst]. now apply IH.
+  - discriminate.
+  - cbn [step fst]. now apply IH.
+Qed.
+
+Lemma wait_sees_due cfg d h b :
+  Forall wf_event h ->
+  snd (step (fst (run (init_sys cfg d) h)) Wait) = Waited b ->
+  save_due h = true -> b = true.
+Proof.
+  intros Hwf Hout Hdue. cbn [step snd] in Hout. inversion Hout. now apply due_armed.
+Qed.
